@@ -1,9 +1,14 @@
 import Bch.Drive.C07
+import Bch.Drive.C01
+import Bch.Drive.C03
 open Bch.Drive
 
 def dispatch (id : String) : Option Runner :=
   match id with
   | "C07" => some C07.run
+  | "C01" => some C01.run
+  | "C02" => some C01.run
+  | "C03" => some C03.run
   | _ => none
 
 def handle (line : String) : String :=
